@@ -431,6 +431,41 @@ func checkC06(c *Ctx) (string, bool, []string) {
 		}
 		return rule, false, assume
 	}
+	// 0a. a plain name and a name that needs quoting with the same length and
+	// the same 32-bit checksum, the plain one first (and for a second pair the
+	// other way round): the answer for one must not be the answer kept for the
+	// other
+	{
+		local := map[string]int64{}
+		const al = "abcdefghijklmnopqrstuvwxyz0123456789_"
+		for ki, kind := range mon.SumKinds {
+			for order := 0; order < 2; order++ {
+				sd := uint64(c.Seed) + uint64(ki*2+order)
+				plain, hostile, ok := mon.CollideAB(kind,
+					func(i int) string { return "n" + mon.Word(sd, i, 9, al) },
+					func(i int) string { return mon.Word(sd+100, i, 4, al) + "; --" + mon.Word(sd+200, i, 2, al) },
+					1<<20)
+				if !ok {
+					local["same-checksum.no-pair-found"]++
+					continue
+				}
+				seq := []string{plain, hostile, plain}
+				if order == 1 {
+					seq = []string{hostile, plain, hostile}
+				}
+				for _, s := range seq {
+					c06Helpers(c, s, local)
+					for _, sl := range c06slots {
+						if sl.ident {
+							c06Template(c, sl, s, local)
+						}
+					}
+				}
+				local["same-checksum.name-pairs"]++
+			}
+		}
+		r.MergeCounts(local)
+	}
 	// 0. look-alikes under case folding, in both call orders and before anything
 	// else has been classified in this process: a non-ASCII letter whose upper-
 	// or lower-case form is an ASCII letter (KELVIN SIGN, LONG S, dotted and
